@@ -72,7 +72,7 @@ func genScript(t *rapid.T, label string, size int) *script {
 	s := &script{n: -1}
 	// Streaming methods twice as likely: they are where interleavings matter.
 	s.method = rapid.SampledFrom([]int{mByteSlice, mProto, mIntoWriter, mReadAt, mReader, mReader, mChunkReader, mChunkReader, mDiscard}).Draw(t, label+"/method")
-	s.sizeFirst = rapid.IntRange(0, 2).Draw(t, label+"/sizeFirst") == 0
+	s.sizeFirst = rapid.IntRange(0, 2).Draw(t, label+"/sizeFirst") == 2
 	switch s.method {
 	case mByteSlice, mProto:
 		s.max = size + 100
@@ -122,10 +122,10 @@ type node struct {
 	script   *script // opLeaf: the consumer; opTeeTask: the consumer inside the task
 
 	// Facts derived from the position in the tree (the oracle's input).
-	tasksAbove   []*node // every WithTask/TeeTask on the path from the root
+	tasksAbove   []*node        // every WithTask/TeeTask on the path from the root
 	sharedTask   map[*node]bool // task above -> a clone operation lies between it and this node
-	copyLimited  bool    // some CloneCopy above had max < size
-	streamAbove  bool    // CloneStream (or TeeTask) above
+	copyLimited  bool           // some CloneCopy above had max < size
+	streamAbove  bool           // CloneStream (or TeeTask) above
 	taskAboveAny bool
 }
 
@@ -185,10 +185,10 @@ func genNode(t *rapid.T, g *genState, depth int, label string) *node {
 		g.consumers--
 		n.kids = []*node{genNode(t, g, depth-1, label+".0"), genNode(t, g, depth-1, label+".1")}
 	case opWithTask:
-		n.taskFail = rapid.IntRange(0, 2).Draw(t, label+"/fail") == 0
+		n.taskFail = rapid.IntRange(0, 2).Draw(t, label+"/fail") == 2
 		n.kids = []*node{genNode(t, g, depth-1, label+".0")}
 	case opTeeTask:
-		n.taskFail = rapid.IntRange(0, 2).Draw(t, label+"/fail") == 0
+		n.taskFail = rapid.IntRange(0, 2).Draw(t, label+"/fail") == 2
 		g.consumers--
 		n.script = genScript(t, label+"/task", g.size)
 		n.kids = []*node{genNode(t, g, depth-1, label+".0")}
